@@ -315,22 +315,24 @@ def run(ck, facts):
             ck.expect(lits and all(s.endswith("{var_name}" + want) for s in lits), "R5", "cpp::gen_c_to_cpp_for_return_type/%s" % n["pat"]["n"], str(lits), "`%s` reads %s, expected the `%s` arm" % (n["pat"]["n"], lits, want), C.loc(f, n.get("ln")))
 
     # ---------------- R6 macro return rewriting + corpus
-    gm = mac.fn("diplomat::gen_custom_type_method")
-    # find the match on ty.as_ref() inside the Option branch
+    # find the match on ty.as_ref() inside the Option branch (in whichever function of the macro crate builds the return tokens)
     found = False
-    for n in C.walk(C.fn_body(gm)):
-        if n.get("k") == "match" and (n.get("sadt") or "").endswith("ast::types::TypeName"):
-            arms = n["arms"]
-            ptr_arm = [a for a in arms if any(v in ("Box", "Reference") for v in ([a["pat"].get("v")] + [x.get("v") for x in a["pat"].get("alts", [])]))]
-            other = [a for a in arms if a["pat"].get("k") == "wild"]
-            if ptr_arm and other:
-                found = True
-                srcs_o = " ".join(x.get("src", "") for x in C.walk(other[0]["b"]) if x.get("k") == "macro")
-                srcs_p = " ".join(x.get("src", "") for x in C.walk(ptr_arm[0]["b"]) if x.get("k") == "macro")
-                ok = "DiplomatResult<#ty, ()>" in srcs_o and ".ok_or(()).into()" in srcs_o and "DiplomatResult" not in srcs_p
-                ck.expect(ok, "R6", "macro::gen_custom_type_method/option-return", "non-pointer: DiplomatResult<T,()> + ok_or(()).into(); pointer: unchanged",
-                          "Option return rewriting changed: non-pointer arm `%s` / pointer arm `%s`" % (srcs_o[:120], srcs_p[:80]), C.loc(gm, n.get("ln")))
-    ck.expect(found, "R6", "macro::gen_custom_type_method/option-return-anchor", "", "match on the Option payload not found in gen_custom_type_method", C.loc(gm))
+    gm = None
+    for gmf in [f for f in mac.fn_list if "hir" in f and f.get("dk") != "Closure"]:
+      for n in C.walk(C.fn_body(gmf)):
+          if n.get("k") == "match" and (n.get("sadt") or "").endswith("ast::types::TypeName"):
+              gm = gm or gmf
+              arms = n["arms"]
+              ptr_arm = [a for a in arms if any(v in ("Box", "Reference") for v in ([a["pat"].get("v")] + [x.get("v") for x in a["pat"].get("alts", [])]))]
+              other = [a for a in arms if a["pat"].get("k") == "wild"]
+              if ptr_arm and other:
+                  found = True
+                  srcs_o = " ".join(x.get("src", "") for x in C.walk(other[0]["b"]) if x.get("k") == "macro")
+                  srcs_p = " ".join(x.get("src", "") for x in C.walk(ptr_arm[0]["b"]) if x.get("k") == "macro")
+                  ok = "DiplomatResult<#ty, ()>" in srcs_o and ".ok_or(()).into()" in srcs_o and "DiplomatResult" not in srcs_p
+                  ck.expect(ok, "R6", "macro::gen_custom_type_method/option-return", "non-pointer: DiplomatResult<T,()> + ok_or(()).into(); pointer: unchanged",
+                            "Option return rewriting changed: non-pointer arm `%s` / pointer arm `%s`" % (srcs_o[:120], srcs_p[:80]), C.loc(gmf, n.get("ln")))
+    ck.expect(found, "R6", "macro::gen_custom_type_method/option-return-anchor", "", "match on the Option payload not found in the macro crate", C.loc(gm) if gm else None)
     n6 = 0
     for unit in (facts.ft, facts.example):
         for f in unit.fn_list:
@@ -397,8 +399,8 @@ def run(ck, facts):
                 scan(c, in_opt)
         scan(C.fn_body(f), False)
         return out
-    sites = [("is_ffi_safe", core.fn("ast::types::TypeName::is_ffi_safe")), ("ffi_safe_version", core.fn("ast::types::TypeName::ffi_safe_version")),
-             ("macro::gen_custom_type_method", facts.macro.fn("gen_custom_type_method"))]
+    sites = [("is_ffi_safe", core.fn("ast::types::TypeName::is_ffi_safe")), ("ffi_safe_version", core.fn("ast::types::TypeName::ffi_safe_version"))]
+    sites += [("macro::return-tokens", f) for f in facts.macro.fn_list if "hir" in f and f.get("dk") != "Closure"]
     nsp = 0
     for label, f in sites:
         for mt in inner_splits(f):
